@@ -349,6 +349,61 @@ def make_app_classes():
             self.w.rec.log(self.ep, 'cb_keepalive_timeout', x=int(time_since_last_keepalive.total_seconds() * 1000))
             await self._auto_reconnect(rsocket, 'reconnect_on_timeout')
 
+    from rsocket.awaitable.collector_subscriber import CollectorSubscriber
+
+    class _LoggedSubscription:
+        """what the library's CollectorSubscriber is given as its subscription: records the request(n) / cancel() calls it makes
+        (they are the application's grants as far as the wire is concerned), then passes them on"""
+
+        def __init__(self, sub, inner):
+            self.sub, self.inner = sub, inner
+            self.by_driver = False      # the driver (not the collector from inside on_next) is making the call: it logs itself
+
+        def request(self, n):
+            if not self.by_driver:
+                self.sub.w.rec.log(self.sub.ep, 'app_request_n', iid=self.sub.iid, n=n, role=self.sub.role, x=1)
+            self.inner.request(n)
+
+        def cancel(self):
+            self.sub.cancelled = True
+            if not self.by_driver:
+                self.sub.w.rec.log(self.sub.ep, 'app_cancel', iid=self.sub.iid, role=self.sub.role)
+            self.inner.cancel()
+
+    class RecCollector(CollectorSubscriber):
+        """the library's own batching subscriber (rsocket.awaitable.CollectorSubscriber, what AwaitableRSocket.request_stream /
+        request_channel use) with every signal recorded; its logic is untouched"""
+
+        def __init__(self, world, ep, iid, role, limit_rate, limit_count=None):
+            super().__init__(limit_rate, limit_count)
+            self.w, self.ep, self.iid, self.role = world, ep, iid, role
+            self.terminated = False
+            self.cancelled = False
+            self.auto_request = 0
+
+        def on_subscribe(self, subscription):
+            self.w.rec.log(self.ep, 'cb_subscribe', iid=self.iid, role=self.role)
+            super().on_subscribe(_LoggedSubscription(self, subscription))
+
+        def on_next(self, value, is_complete=False):
+            pid = self.w.payloads.resolve(value.data, value.metadata)
+            if is_complete:
+                self.terminated = True
+            self.w.rec.log(self.ep, 'cb_next', iid=self.iid, pid=pid, C=is_complete, role=self.role,
+                           dl=len(value.data or b''), ml=len(value.metadata or b''))
+            super().on_next(value, is_complete)
+
+        def on_complete(self):
+            self.terminated = True
+            self.w.rec.log(self.ep, 'cb_complete', iid=self.iid, role=self.role)
+            super().on_complete()
+
+        def on_error(self, exception):
+            self.terminated = True
+            self.w.rec.log(self.ep, 'cb_error', iid=self.iid, code=_err_code(exception), role=self.role)
+            super().on_error(exception)
+
+    RecSubscriber.Collector = RecCollector
     return RecSubscriber, RecPublisher, RecHandler
 
 
@@ -1070,6 +1125,8 @@ class World:
         self.policy[pid] = policy or {}
         it = self.interaction(pid)
         it.update(kind='stream', init=ep, resp_ep='s' if ep == 'c' else 'c')
+        if (policy or {}).get('collector'):
+            n0 = policy['collector']['limit_rate']
         self.rec.log(ep, 'app_request', kind='stream', iid=pid, pid=pid, n=n0 if n0 is not None else 2 ** 31 - 1,
                      dl=spec[0], ml=spec[1])
         req = self.eps[ep].request_stream(p)
@@ -1077,8 +1134,14 @@ class World:
         it['sid'] = req.stream_id
         if n0 is not None:
             req.initial_request_n(n0)
-        sub = self.RecSubscriber(self, ep, pid, 'req', sub_raise_in)
-        sub.auto_request = (policy or {}).get('auto_request', 0)
+        col = (policy or {}).get('collector')
+        if col:
+            # AwaitableRSocket.request_stream(limit_rate): initial request n = limit_rate, CollectorSubscriber replenishes
+            req.initial_request_n(col['limit_rate'])
+            sub = self.RecSubscriber.Collector(self, ep, pid, 'req', col['limit_rate'], col.get('limit_count'))
+        else:
+            sub = self.RecSubscriber(self, ep, pid, 'req', sub_raise_in)
+            sub.auto_request = (policy or {}).get('auto_request', 0)
         it['sub'] = sub
         if subscribe:
             self.subscribe(pid)
@@ -1094,6 +1157,8 @@ class World:
         it.update(kind='channel', init=ep, resp_ep='s' if ep == 'c' else 'c')
         publisher = self.make_source(ep, pid, 'req', pub_policy or {}) if pub else None
         it['req_pub'] = publisher
+        if (policy or {}).get('collector'):
+            n0 = policy['collector']['limit_rate']
         self.rec.log(ep, 'app_request', kind='channel', iid=pid, pid=pid, n=n0 if n0 is not None else 2 ** 31 - 1,
                      dl=spec[0], ml=spec[1], x=1 if pub else 0)
         if pub:
@@ -1104,8 +1169,13 @@ class World:
         it['sid'] = req.stream_id
         if n0 is not None:
             req.initial_request_n(n0)
-        sub = self.RecSubscriber(self, ep, pid, 'req')
-        sub.auto_request = (policy or {}).get('auto_request', 0)
+        col = (policy or {}).get('collector')
+        if col:
+            req.initial_request_n(col['limit_rate'])
+            sub = self.RecSubscriber.Collector(self, ep, pid, 'req', col['limit_rate'], col.get('limit_count'))
+        else:
+            sub = self.RecSubscriber(self, ep, pid, 'req')
+            sub.auto_request = (policy or {}).get('auto_request', 0)
         it['sub'] = sub
         if subscribe:
             self.subscribe(pid)
@@ -1125,7 +1195,13 @@ class World:
         if sub is None or sub.subscription is None:
             return False
         self.rec.log(ep, 'app_request_n', iid=iid, n=n, role=role)
-        sub.subscription.request(n)
+        if hasattr(sub.subscription, 'by_driver'):
+            sub.subscription.by_driver = True
+        try:
+            sub.subscription.request(n)
+        finally:
+            if hasattr(sub.subscription, 'by_driver'):
+                sub.subscription.by_driver = False
         return True
 
     def sub_cancel(self, iid, role='req'):
@@ -1135,7 +1211,13 @@ class World:
         if sub is None or sub.subscription is None:
             return False
         self.rec.log(ep, 'app_cancel', iid=iid, role=role)
-        sub.subscription.cancel()
+        if hasattr(sub.subscription, 'by_driver'):
+            sub.subscription.by_driver = True
+        try:
+            sub.subscription.cancel()
+        finally:
+            if hasattr(sub.subscription, 'by_driver'):
+                sub.subscription.by_driver = False
         return True
 
     def pub(self, iid, role='resp'):
